@@ -239,7 +239,11 @@ theorem findEarlierGo_placed : (fs : List OFrag) → ∀ (kept : List OFrag) (r 
               obtain ⟨hidx, hsub⟩ := findEarlierFrag_placed x x' r1 hfe
               have hfl := findEarlierFrag_inFlow x x' r1 hfe
               intro p hp
-              simp only [placedLinesList, List.mem_append, List.append_nil, hidx, hfl] at hp ⊢
+              have hce : ∀ pie kb, placedLines x'.cutEnd pie kb = placedLines x' pie kb := by
+                intro pie kb; cases x' <;> rfl
+              have hci : x'.cutEnd.idx = x'.idx := by cases x' <;> rfl
+              have hcf : x'.cutEnd.inFlow = x'.inFlow := by cases x' <;> rfl
+              simp only [placedLinesList, List.mem_append, List.append_nil, hci, hcf, hce, hidx, hfl] at hp ⊢
               left
               cases hxin : x.inFlow with
               | false => simp [hxin] at hp
